@@ -3,8 +3,11 @@
    where the Python code (CoAPParser.parse with interpret_options=SEMANTIC, _parse_options in its
    semantic branch, CoAPParser.unparse) slices, compares, reads integers and builds Buffer objects.
    The structure is the one of the bit-level transcription CoapSemantic.v (same stale variables, same
-   exception sites in the same order); CoapSemanticRefine.v proves that on canonical buffers these
-   functions return (through abs) what the bit-level ones return.
+   exception sites in the same order, including the finally clause of unparse, which builds the option
+   fields and also runs, with the stale option_number, when an unrecognised field identifier has just
+   raised UnparserError; see bcoap_unparse_loop and CoapSemantic.coap_unparse_loop).
+   CoapSemanticRefine.v proves that on canonical buffers these functions return (through abs) what the
+   bit-level ones return, with no side condition.
    Definitions only, plus evaluated examples compared with the Python results. *)
 From Coq Require Import ZArith List Bool.
 From MS Require Import PyBase Buffer Bits Schc Parsers SchcBytes ParserBytes CoapSemantic ComputeBytes.
@@ -130,3 +133,290 @@ Fixpoint bcoap_unparse_loop (fs : list (fid * buf)) (prev : Z) (seen : bool) : r
          end
   end.
 Definition bcoap_unparse (fs : list (fid * buf)) : res (list (fid * buf)) := bcoap_unparse_loop fs 0 false.
+
+(* ---- validation against the Python code ------------------------------------------------------------- *)
+(* Each example is the result of the Python call quoted above it (microschc at HEAD, Python 3.12), with
+   Buffer(content, length, padding, padding_length) printed as mkbuf content length side padding_length,
+   CoAPFields members as their rank in the enumeration and 'CoAP:Option Unknown(n)' as rank 1000 + n
+   (an identifier outside the CoAP tables as mkfid P_Other 0).  p stands for
+   CoAPParser(interpret_options=CoAPOptionMode.SEMANTIC).  The same generator (scratch) compared 1233
+   further random cases (well-formed, truncated, noisy and nibble-15 messages; random field lists for
+   unparse with left- and right-padded values) with the Python results by vm_compute: no difference. *)
+(* Uri-Path twice, Content-Format with an empty value, Accept, payload:
+   CoAPParser(interpret_options=CoAPOptionMode.SEMANTIC).parse(Buffer(content=bytes.fromhex('42011234aabbb2616203636465105101ff706179'), length=160)) *)
+Example ex1_parse :
+  bparse_coap_semantic (mkbuf [66; 1; 18; 52; 170; 187; 178; 97; 98; 3; 99; 100; 101; 16; 81; 1; 255; 112; 97; 121] 160 LEFT 0) =
+  Ok ([mkbfield (mkfid P_CoAP 0) (mkbuf [1] 2 LEFT 6) 0;
+       mkbfield (mkfid P_CoAP 1) (mkbuf [0] 2 LEFT 6) 0;
+       mkbfield (mkfid P_CoAP 2) (mkbuf [2] 4 LEFT 4) 0;
+       mkbfield (mkfid P_CoAP 3) (mkbuf [1] 8 LEFT 0) 0;
+       mkbfield (mkfid P_CoAP 4) (mkbuf [18; 52] 16 LEFT 0) 0;
+       mkbfield (mkfid P_CoAP 5) (mkbuf [170; 187] 16 LEFT 0) 0;
+       mkbfield (mkfid P_CoAP 18) (mkbuf [97; 98] 16 LEFT 0) 1;
+       mkbfield (mkfid P_CoAP 18) (mkbuf [99; 100; 101] 24 LEFT 0) 2;
+       mkbfield (mkfid P_CoAP 19) (mkbuf [] 0 LEFT 0) 1;
+       mkbfield (mkfid P_CoAP 22) (mkbuf [1] 8 LEFT 0) 1;
+       mkbfield (mkfid P_CoAP 6) (mkbuf [255] 8 LEFT 0) 0], 136).
+Proof. vm_compute. reflexivity. Qed.
+(* CoAPParser(interpret_options=CoAPOptionMode.SEMANTIC).unparse([(f.id, f.value) for f in h.fields]) for the descriptor h above *)
+Example ex1_unparse :
+  bcoap_unparse
+    [(mkfid P_CoAP 0, mkbuf [1] 2 LEFT 6);
+     (mkfid P_CoAP 1, mkbuf [0] 2 LEFT 6);
+     (mkfid P_CoAP 2, mkbuf [2] 4 LEFT 4);
+     (mkfid P_CoAP 3, mkbuf [1] 8 LEFT 0);
+     (mkfid P_CoAP 4, mkbuf [18; 52] 16 LEFT 0);
+     (mkfid P_CoAP 5, mkbuf [170; 187] 16 LEFT 0);
+     (mkfid P_CoAP 18, mkbuf [97; 98] 16 LEFT 0);
+     (mkfid P_CoAP 18, mkbuf [99; 100; 101] 24 LEFT 0);
+     (mkfid P_CoAP 19, mkbuf [] 0 LEFT 0);
+     (mkfid P_CoAP 22, mkbuf [1] 8 LEFT 0);
+     (mkfid P_CoAP 6, mkbuf [255] 8 LEFT 0)] =
+  Ok [(mkfid P_CoAP 0, mkbuf [1] 2 LEFT 6);
+      (mkfid P_CoAP 1, mkbuf [0] 2 LEFT 6);
+      (mkfid P_CoAP 2, mkbuf [2] 4 LEFT 4);
+      (mkfid P_CoAP 3, mkbuf [1] 8 LEFT 0);
+      (mkfid P_CoAP 4, mkbuf [18; 52] 16 LEFT 0);
+      (mkfid P_CoAP 5, mkbuf [170; 187] 16 LEFT 0);
+      (mkfid P_CoAP 7, mkbuf [11] 4 LEFT 4);
+      (mkfid P_CoAP 8, mkbuf [2] 4 LEFT 4);
+      (mkfid P_CoAP 11, mkbuf [97; 98] 16 LEFT 0);
+      (mkfid P_CoAP 7, mkbuf [0] 4 LEFT 4);
+      (mkfid P_CoAP 8, mkbuf [3] 4 LEFT 4);
+      (mkfid P_CoAP 11, mkbuf [99; 100; 101] 24 LEFT 0);
+      (mkfid P_CoAP 7, mkbuf [1] 4 LEFT 4);
+      (mkfid P_CoAP 8, mkbuf [0] 4 LEFT 4);
+      (mkfid P_CoAP 7, mkbuf [5] 4 LEFT 4);
+      (mkfid P_CoAP 8, mkbuf [1] 4 LEFT 4);
+      (mkfid P_CoAP 11, mkbuf [1] 8 LEFT 0);
+      (mkfid P_CoAP 6, mkbuf [255] 8 LEFT 0)].
+Proof. vm_compute. reflexivity. Qed.
+(* delta 13 (unknown number 13) with a 13-byte value, delta 10 (Block2 = 23 is not in the table: Unknown(23)), delta 268 (Unknown(291)), no payload:
+   CoAPParser(interpret_options=CoAPOptionMode.SEMANTIC).parse(Buffer(content=bytes.fromhex('40011234dd000078787878787878787878787878a107ddff077979797979797979797979797979797979797979'), length=360)) *)
+Example ex2_parse :
+  bparse_coap_semantic (mkbuf [64; 1; 18; 52; 221; 0; 0; 120; 120; 120; 120; 120; 120; 120; 120; 120; 120; 120; 120; 120; 161; 7; 221; 255; 7; 121; 121; 121; 121; 121; 121; 121; 121; 121; 121; 121; 121; 121; 121; 121; 121; 121; 121; 121; 121] 360 LEFT 0) =
+  Ok ([mkbfield (mkfid P_CoAP 0) (mkbuf [1] 2 LEFT 6) 0;
+       mkbfield (mkfid P_CoAP 1) (mkbuf [0] 2 LEFT 6) 0;
+       mkbfield (mkfid P_CoAP 2) (mkbuf [0] 4 LEFT 4) 0;
+       mkbfield (mkfid P_CoAP 3) (mkbuf [1] 8 LEFT 0) 0;
+       mkbfield (mkfid P_CoAP 4) (mkbuf [18; 52] 16 LEFT 0) 0;
+       mkbfield (mkfid P_CoAP 1013) (mkbuf [120; 120; 120; 120; 120; 120; 120; 120; 120; 120; 120; 120; 120] 104 LEFT 0) 1;
+       mkbfield (mkfid P_CoAP 1023) (mkbuf [7] 8 LEFT 0) 1;
+       mkbfield (mkfid P_CoAP 1291) (mkbuf [121; 121; 121; 121; 121; 121; 121; 121; 121; 121; 121; 121; 121; 121; 121; 121; 121; 121; 121; 121] 160 LEFT 0) 1], 360).
+Proof. vm_compute. reflexivity. Qed.
+(* CoAPParser(interpret_options=CoAPOptionMode.SEMANTIC).unparse([(f.id, f.value) for f in h.fields]) for the descriptor h above *)
+Example ex2_unparse :
+  bcoap_unparse
+    [(mkfid P_CoAP 0, mkbuf [1] 2 LEFT 6);
+     (mkfid P_CoAP 1, mkbuf [0] 2 LEFT 6);
+     (mkfid P_CoAP 2, mkbuf [0] 4 LEFT 4);
+     (mkfid P_CoAP 3, mkbuf [1] 8 LEFT 0);
+     (mkfid P_CoAP 4, mkbuf [18; 52] 16 LEFT 0);
+     (mkfid P_CoAP 1013, mkbuf [120; 120; 120; 120; 120; 120; 120; 120; 120; 120; 120; 120; 120] 104 LEFT 0);
+     (mkfid P_CoAP 1023, mkbuf [7] 8 LEFT 0);
+     (mkfid P_CoAP 1291, mkbuf [121; 121; 121; 121; 121; 121; 121; 121; 121; 121; 121; 121; 121; 121; 121; 121; 121; 121; 121; 121] 160 LEFT 0)] =
+  Ok [(mkfid P_CoAP 0, mkbuf [1] 2 LEFT 6);
+      (mkfid P_CoAP 1, mkbuf [0] 2 LEFT 6);
+      (mkfid P_CoAP 2, mkbuf [0] 4 LEFT 4);
+      (mkfid P_CoAP 3, mkbuf [1] 8 LEFT 0);
+      (mkfid P_CoAP 4, mkbuf [18; 52] 16 LEFT 0);
+      (mkfid P_CoAP 7, mkbuf [13] 4 LEFT 4);
+      (mkfid P_CoAP 8, mkbuf [13] 4 LEFT 4);
+      (mkfid P_CoAP 9, mkbuf [0] 8 LEFT 0);
+      (mkfid P_CoAP 10, mkbuf [0] 8 LEFT 0);
+      (mkfid P_CoAP 11, mkbuf [120; 120; 120; 120; 120; 120; 120; 120; 120; 120; 120; 120; 120] 104 LEFT 0);
+      (mkfid P_CoAP 7, mkbuf [10] 4 LEFT 4);
+      (mkfid P_CoAP 8, mkbuf [1] 4 LEFT 4);
+      (mkfid P_CoAP 11, mkbuf [7] 8 LEFT 0);
+      (mkfid P_CoAP 7, mkbuf [13] 4 LEFT 4);
+      (mkfid P_CoAP 8, mkbuf [13] 4 LEFT 4);
+      (mkfid P_CoAP 9, mkbuf [255] 8 LEFT 0);
+      (mkfid P_CoAP 10, mkbuf [7] 8 LEFT 0);
+      (mkfid P_CoAP 11, mkbuf [121; 121; 121; 121; 121; 121; 121; 121; 121; 121; 121; 121; 121; 121; 121; 121; 121; 121; 121; 121] 160 LEFT 0)].
+Proof. vm_compute. reflexivity. Qed.
+(* delta 269 with a 269-byte value, delta 300 with an empty value, marker and empty payload:
+   CoAPParser(interpret_options=CoAPOptionMode.SEMANTIC).parse(Buffer(content=bytes.fromhex('4101123499ee000000007a7a7a7a7a7a7a7a7a7a7a7a7a7a7a7a7a7a7a7a7a7a7a7a7a7a7a7a7a7a7a7a7a7a7a7a7a7a7a7a7a7a7a7a7a7a7a7a7a7a7a7a7a7a7a7a7a7a7a7a7a7a7a7a7a7a7a7a7a7a7a7a7a7a7a7a7a7a7a7a7a7a7a7a7a7a7a7a7a7a7a7a7a7a7a7a7a7a7a7a7a7a7a7a7a7a7a7a7a7a7a7a7a7a7a7a7a7a7a7a7a7a7a7a7a7a7a7a7a7a7a7a7a7a7a7a7a7a7a7a7a7a7a7a7a7a7a7a7a7a7a7a7a7a7a7a7a7a7a7a7a7a7a7a7a7a7a7a7a7a7a7a7a7a7a7a7a7a7a7a7a7a7a7a7a7a7a7a7a7a7a7a7a7a7a7a7a7a7a7a7a7a7a7a7a7a7a7a7a7a7a7a7a7a7a7a7a7a7a7a7a7a7a7a7a7a7a7a7a7a7a7a7a7a7a7a7a7a7a7a7a7a7a7a7a7a7a7a7a7a7a7a7a7a7a7a7a7a7a7a7a7a7a7a7a7a7a7a7ae0001fff'), length=2264)) *)
+Example ex3_parse :
+  bparse_coap_semantic (mkbuf [65; 1; 18; 52; 153; 238; 0; 0; 0; 0; 122; 122; 122; 122; 122; 122; 122; 122; 122; 122; 122; 122; 122; 122; 122; 122; 122; 122; 122; 122; 122; 122; 122; 122; 122; 122; 122; 122; 122; 122; 122; 122; 122; 122; 122; 122; 122; 122; 122; 122; 122; 122; 122; 122; 122; 122; 122; 122; 122; 122; 122; 122; 122; 122; 122; 122; 122; 122; 122; 122; 122; 122; 122; 122; 122; 122; 122; 122; 122; 122; 122; 122; 122; 122; 122; 122; 122; 122; 122; 122; 122; 122; 122; 122; 122; 122; 122; 122; 122; 122; 122; 122; 122; 122; 122; 122; 122; 122; 122; 122; 122; 122; 122; 122; 122; 122; 122; 122; 122; 122; 122; 122; 122; 122; 122; 122; 122; 122; 122; 122; 122; 122; 122; 122; 122; 122; 122; 122; 122; 122; 122; 122; 122; 122; 122; 122; 122; 122; 122; 122; 122; 122; 122; 122; 122; 122; 122; 122; 122; 122; 122; 122; 122; 122; 122; 122; 122; 122; 122; 122; 122; 122; 122; 122; 122; 122; 122; 122; 122; 122; 122; 122; 122; 122; 122; 122; 122; 122; 122; 122; 122; 122; 122; 122; 122; 122; 122; 122; 122; 122; 122; 122; 122; 122; 122; 122; 122; 122; 122; 122; 122; 122; 122; 122; 122; 122; 122; 122; 122; 122; 122; 122; 122; 122; 122; 122; 122; 122; 122; 122; 122; 122; 122; 122; 122; 122; 122; 122; 122; 122; 122; 122; 122; 122; 122; 122; 122; 122; 122; 122; 122; 122; 122; 122; 122; 122; 122; 122; 122; 122; 122; 122; 122; 122; 122; 122; 122; 122; 122; 122; 122; 122; 122; 122; 122; 122; 122; 122; 122; 224; 0; 31; 255] 2264 LEFT 0) =
+  Ok ([mkbfield (mkfid P_CoAP 0) (mkbuf [1] 2 LEFT 6) 0;
+       mkbfield (mkfid P_CoAP 1) (mkbuf [0] 2 LEFT 6) 0;
+       mkbfield (mkfid P_CoAP 2) (mkbuf [1] 4 LEFT 4) 0;
+       mkbfield (mkfid P_CoAP 3) (mkbuf [1] 8 LEFT 0) 0;
+       mkbfield (mkfid P_CoAP 4) (mkbuf [18; 52] 16 LEFT 0) 0;
+       mkbfield (mkfid P_CoAP 5) (mkbuf [153] 8 LEFT 0) 0;
+       mkbfield (mkfid P_CoAP 1269) (mkbuf [122; 122; 122; 122; 122; 122; 122; 122; 122; 122; 122; 122; 122; 122; 122; 122; 122; 122; 122; 122; 122; 122; 122; 122; 122; 122; 122; 122; 122; 122; 122; 122; 122; 122; 122; 122; 122; 122; 122; 122; 122; 122; 122; 122; 122; 122; 122; 122; 122; 122; 122; 122; 122; 122; 122; 122; 122; 122; 122; 122; 122; 122; 122; 122; 122; 122; 122; 122; 122; 122; 122; 122; 122; 122; 122; 122; 122; 122; 122; 122; 122; 122; 122; 122; 122; 122; 122; 122; 122; 122; 122; 122; 122; 122; 122; 122; 122; 122; 122; 122; 122; 122; 122; 122; 122; 122; 122; 122; 122; 122; 122; 122; 122; 122; 122; 122; 122; 122; 122; 122; 122; 122; 122; 122; 122; 122; 122; 122; 122; 122; 122; 122; 122; 122; 122; 122; 122; 122; 122; 122; 122; 122; 122; 122; 122; 122; 122; 122; 122; 122; 122; 122; 122; 122; 122; 122; 122; 122; 122; 122; 122; 122; 122; 122; 122; 122; 122; 122; 122; 122; 122; 122; 122; 122; 122; 122; 122; 122; 122; 122; 122; 122; 122; 122; 122; 122; 122; 122; 122; 122; 122; 122; 122; 122; 122; 122; 122; 122; 122; 122; 122; 122; 122; 122; 122; 122; 122; 122; 122; 122; 122; 122; 122; 122; 122; 122; 122; 122; 122; 122; 122; 122; 122; 122; 122; 122; 122; 122; 122; 122; 122; 122; 122; 122; 122; 122; 122; 122; 122; 122; 122; 122; 122; 122; 122; 122; 122; 122; 122; 122; 122; 122; 122; 122; 122; 122; 122; 122; 122; 122; 122; 122; 122; 122; 122; 122; 122; 122; 122] 2152 LEFT 0) 1;
+       mkbfield (mkfid P_CoAP 1569) (mkbuf [] 0 LEFT 0) 1;
+       mkbfield (mkfid P_CoAP 6) (mkbuf [255] 8 LEFT 0) 0], 2264).
+Proof. vm_compute. reflexivity. Qed.
+(* CoAPParser(interpret_options=CoAPOptionMode.SEMANTIC).unparse([(f.id, f.value) for f in h.fields]) for the descriptor h above *)
+Example ex3_unparse :
+  bcoap_unparse
+    [(mkfid P_CoAP 0, mkbuf [1] 2 LEFT 6);
+     (mkfid P_CoAP 1, mkbuf [0] 2 LEFT 6);
+     (mkfid P_CoAP 2, mkbuf [1] 4 LEFT 4);
+     (mkfid P_CoAP 3, mkbuf [1] 8 LEFT 0);
+     (mkfid P_CoAP 4, mkbuf [18; 52] 16 LEFT 0);
+     (mkfid P_CoAP 5, mkbuf [153] 8 LEFT 0);
+     (mkfid P_CoAP 1269, mkbuf [122; 122; 122; 122; 122; 122; 122; 122; 122; 122; 122; 122; 122; 122; 122; 122; 122; 122; 122; 122; 122; 122; 122; 122; 122; 122; 122; 122; 122; 122; 122; 122; 122; 122; 122; 122; 122; 122; 122; 122; 122; 122; 122; 122; 122; 122; 122; 122; 122; 122; 122; 122; 122; 122; 122; 122; 122; 122; 122; 122; 122; 122; 122; 122; 122; 122; 122; 122; 122; 122; 122; 122; 122; 122; 122; 122; 122; 122; 122; 122; 122; 122; 122; 122; 122; 122; 122; 122; 122; 122; 122; 122; 122; 122; 122; 122; 122; 122; 122; 122; 122; 122; 122; 122; 122; 122; 122; 122; 122; 122; 122; 122; 122; 122; 122; 122; 122; 122; 122; 122; 122; 122; 122; 122; 122; 122; 122; 122; 122; 122; 122; 122; 122; 122; 122; 122; 122; 122; 122; 122; 122; 122; 122; 122; 122; 122; 122; 122; 122; 122; 122; 122; 122; 122; 122; 122; 122; 122; 122; 122; 122; 122; 122; 122; 122; 122; 122; 122; 122; 122; 122; 122; 122; 122; 122; 122; 122; 122; 122; 122; 122; 122; 122; 122; 122; 122; 122; 122; 122; 122; 122; 122; 122; 122; 122; 122; 122; 122; 122; 122; 122; 122; 122; 122; 122; 122; 122; 122; 122; 122; 122; 122; 122; 122; 122; 122; 122; 122; 122; 122; 122; 122; 122; 122; 122; 122; 122; 122; 122; 122; 122; 122; 122; 122; 122; 122; 122; 122; 122; 122; 122; 122; 122; 122; 122; 122; 122; 122; 122; 122; 122; 122; 122; 122; 122; 122; 122; 122; 122; 122; 122; 122; 122; 122; 122; 122; 122; 122; 122] 2152 LEFT 0);
+     (mkfid P_CoAP 1569, mkbuf [] 0 LEFT 0);
+     (mkfid P_CoAP 6, mkbuf [255] 8 LEFT 0)] =
+  Ok [(mkfid P_CoAP 0, mkbuf [1] 2 LEFT 6);
+      (mkfid P_CoAP 1, mkbuf [0] 2 LEFT 6);
+      (mkfid P_CoAP 2, mkbuf [1] 4 LEFT 4);
+      (mkfid P_CoAP 3, mkbuf [1] 8 LEFT 0);
+      (mkfid P_CoAP 4, mkbuf [18; 52] 16 LEFT 0);
+      (mkfid P_CoAP 5, mkbuf [153] 8 LEFT 0);
+      (mkfid P_CoAP 7, mkbuf [14] 4 LEFT 4);
+      (mkfid P_CoAP 8, mkbuf [14] 4 LEFT 4);
+      (mkfid P_CoAP 9, mkbuf [0; 0] 16 LEFT 0);
+      (mkfid P_CoAP 10, mkbuf [0; 0] 16 LEFT 0);
+      (mkfid P_CoAP 11, mkbuf [122; 122; 122; 122; 122; 122; 122; 122; 122; 122; 122; 122; 122; 122; 122; 122; 122; 122; 122; 122; 122; 122; 122; 122; 122; 122; 122; 122; 122; 122; 122; 122; 122; 122; 122; 122; 122; 122; 122; 122; 122; 122; 122; 122; 122; 122; 122; 122; 122; 122; 122; 122; 122; 122; 122; 122; 122; 122; 122; 122; 122; 122; 122; 122; 122; 122; 122; 122; 122; 122; 122; 122; 122; 122; 122; 122; 122; 122; 122; 122; 122; 122; 122; 122; 122; 122; 122; 122; 122; 122; 122; 122; 122; 122; 122; 122; 122; 122; 122; 122; 122; 122; 122; 122; 122; 122; 122; 122; 122; 122; 122; 122; 122; 122; 122; 122; 122; 122; 122; 122; 122; 122; 122; 122; 122; 122; 122; 122; 122; 122; 122; 122; 122; 122; 122; 122; 122; 122; 122; 122; 122; 122; 122; 122; 122; 122; 122; 122; 122; 122; 122; 122; 122; 122; 122; 122; 122; 122; 122; 122; 122; 122; 122; 122; 122; 122; 122; 122; 122; 122; 122; 122; 122; 122; 122; 122; 122; 122; 122; 122; 122; 122; 122; 122; 122; 122; 122; 122; 122; 122; 122; 122; 122; 122; 122; 122; 122; 122; 122; 122; 122; 122; 122; 122; 122; 122; 122; 122; 122; 122; 122; 122; 122; 122; 122; 122; 122; 122; 122; 122; 122; 122; 122; 122; 122; 122; 122; 122; 122; 122; 122; 122; 122; 122; 122; 122; 122; 122; 122; 122; 122; 122; 122; 122; 122; 122; 122; 122; 122; 122; 122; 122; 122; 122; 122; 122; 122; 122; 122; 122; 122; 122; 122; 122; 122; 122; 122; 122; 122] 2152 LEFT 0);
+      (mkfid P_CoAP 7, mkbuf [14] 4 LEFT 4);
+      (mkfid P_CoAP 8, mkbuf [0] 4 LEFT 4);
+      (mkfid P_CoAP 9, mkbuf [0; 31] 16 LEFT 0);
+      (mkfid P_CoAP 6, mkbuf [255] 8 LEFT 0)].
+Proof. vm_compute. reflexivity. Qed.
+(* delta nibble 15 reads the option_delta_extended of the previous option (20 + 7 + 269 = 296):
+   CoAPParser(interpret_options=CoAPOptionMode.SEMANTIC).parse(Buffer(content=bytes.fromhex('40010001d10755f0'), length=64)) *)
+Example ex4_parse :
+  bparse_coap_semantic (mkbuf [64; 1; 0; 1; 209; 7; 85; 240] 64 LEFT 0) =
+  Ok ([mkbfield (mkfid P_CoAP 0) (mkbuf [1] 2 LEFT 6) 0;
+       mkbfield (mkfid P_CoAP 1) (mkbuf [0] 2 LEFT 6) 0;
+       mkbfield (mkfid P_CoAP 2) (mkbuf [0] 4 LEFT 4) 0;
+       mkbfield (mkfid P_CoAP 3) (mkbuf [1] 8 LEFT 0) 0;
+       mkbfield (mkfid P_CoAP 4) (mkbuf [0; 1] 16 LEFT 0) 0;
+       mkbfield (mkfid P_CoAP 23) (mkbuf [85] 8 LEFT 0) 1;
+       mkbfield (mkfid P_CoAP 1296) (mkbuf [] 0 LEFT 0) 1], 64).
+Proof. vm_compute. reflexivity. Qed.
+(* CoAPParser(interpret_options=CoAPOptionMode.SEMANTIC).unparse([(f.id, f.value) for f in h.fields]) for the descriptor h above *)
+Example ex4_unparse :
+  bcoap_unparse
+    [(mkfid P_CoAP 0, mkbuf [1] 2 LEFT 6);
+     (mkfid P_CoAP 1, mkbuf [0] 2 LEFT 6);
+     (mkfid P_CoAP 2, mkbuf [0] 4 LEFT 4);
+     (mkfid P_CoAP 3, mkbuf [1] 8 LEFT 0);
+     (mkfid P_CoAP 4, mkbuf [0; 1] 16 LEFT 0);
+     (mkfid P_CoAP 23, mkbuf [85] 8 LEFT 0);
+     (mkfid P_CoAP 1296, mkbuf [] 0 LEFT 0)] =
+  Ok [(mkfid P_CoAP 0, mkbuf [1] 2 LEFT 6);
+      (mkfid P_CoAP 1, mkbuf [0] 2 LEFT 6);
+      (mkfid P_CoAP 2, mkbuf [0] 4 LEFT 4);
+      (mkfid P_CoAP 3, mkbuf [1] 8 LEFT 0);
+      (mkfid P_CoAP 4, mkbuf [0; 1] 16 LEFT 0);
+      (mkfid P_CoAP 7, mkbuf [13] 4 LEFT 4);
+      (mkfid P_CoAP 8, mkbuf [1] 4 LEFT 4);
+      (mkfid P_CoAP 9, mkbuf [7] 8 LEFT 0);
+      (mkfid P_CoAP 11, mkbuf [85] 8 LEFT 0);
+      (mkfid P_CoAP 7, mkbuf [14] 4 LEFT 4);
+      (mkfid P_CoAP 8, mkbuf [0] 4 LEFT 4);
+      (mkfid P_CoAP 9, mkbuf [0; 7] 16 LEFT 0)].
+Proof. vm_compute. reflexivity. Qed.
+(* delta nibble 15 in the first option: option_delta_extended is unbound:
+   CoAPParser(interpret_options=CoAPOptionMode.SEMANTIC).parse(Buffer(content=bytes.fromhex('40010001f0'), length=40)) *)
+Example ex5_parse :
+  bparse_coap_semantic (mkbuf [64; 1; 0; 1; 240] 40 LEFT 0) =
+  Exc ParserError.
+Proof. vm_compute. reflexivity. Qed.
+(* truncated option value:
+   CoAPParser(interpret_options=CoAPOptionMode.SEMANTIC).parse(Buffer(content=bytes.fromhex('40010001130102'), length=56)) *)
+Example ex6_parse :
+  bparse_coap_semantic (mkbuf [64; 1; 0; 1; 19; 1; 2] 56 LEFT 0) =
+  Exc ParserError.
+Proof. vm_compute. reflexivity. Qed.
+(* too short:
+   CoAPParser(interpret_options=CoAPOptionMode.SEMANTIC).parse(Buffer(content=bytes.fromhex('400100'), length=24)) *)
+Example ex7_parse :
+  bparse_coap_semantic (mkbuf [64; 1; 0] 24 LEFT 0) =
+  Exc ParserError.
+Proof. vm_compute. reflexivity. Qed.
+(* token longer than the buffer (the slice is clamped), no options:
+   CoAPParser(interpret_options=CoAPOptionMode.SEMANTIC).parse(Buffer(content=bytes.fromhex('48010001aa'), length=40)) *)
+Example ex8_parse :
+  bparse_coap_semantic (mkbuf [72; 1; 0; 1; 170] 40 LEFT 0) =
+  Ok ([mkbfield (mkfid P_CoAP 0) (mkbuf [1] 2 LEFT 6) 0;
+       mkbfield (mkfid P_CoAP 1) (mkbuf [0] 2 LEFT 6) 0;
+       mkbfield (mkfid P_CoAP 2) (mkbuf [8] 4 LEFT 4) 0;
+       mkbfield (mkfid P_CoAP 3) (mkbuf [1] 8 LEFT 0) 0;
+       mkbfield (mkfid P_CoAP 4) (mkbuf [0; 1] 16 LEFT 0) 0;
+       mkbfield (mkfid P_CoAP 5) (mkbuf [170] 8 LEFT 0) 0], 40).
+Proof. vm_compute. reflexivity. Qed.
+(* CoAPParser(interpret_options=CoAPOptionMode.SEMANTIC).unparse([(f.id, f.value) for f in h.fields]) for the descriptor h above *)
+Example ex8_unparse :
+  bcoap_unparse
+    [(mkfid P_CoAP 0, mkbuf [1] 2 LEFT 6);
+     (mkfid P_CoAP 1, mkbuf [0] 2 LEFT 6);
+     (mkfid P_CoAP 2, mkbuf [8] 4 LEFT 4);
+     (mkfid P_CoAP 3, mkbuf [1] 8 LEFT 0);
+     (mkfid P_CoAP 4, mkbuf [0; 1] 16 LEFT 0);
+     (mkfid P_CoAP 5, mkbuf [170] 8 LEFT 0)] =
+  Ok [(mkfid P_CoAP 0, mkbuf [1] 2 LEFT 6);
+      (mkfid P_CoAP 1, mkbuf [0] 2 LEFT 6);
+      (mkfid P_CoAP 2, mkbuf [8] 4 LEFT 4);
+      (mkfid P_CoAP 3, mkbuf [1] 8 LEFT 0);
+      (mkfid P_CoAP 4, mkbuf [0; 1] 16 LEFT 0);
+      (mkfid P_CoAP 5, mkbuf [170] 8 LEFT 0)].
+Proof. vm_compute. reflexivity. Qed.
+(* 53 bits:
+   CoAPParser(interpret_options=CoAPOptionMode.SEMANTIC).parse(Buffer(content=bytes.fromhex('40010001b1617f'), length=53)) *)
+Example ex9_parse :
+  bparse_coap_semantic (mkbuf [0; 1; 0; 1; 177; 97; 127] 53 LEFT 3) =
+  Exc ParserError.
+Proof. vm_compute. reflexivity. Qed.
+(* p.unparse([('bogus', Buffer(b'\x01', 8))]): option_number unbound in the finally clause *)
+Example un1 :
+  bcoap_unparse
+    [(mkfid P_Other 0, mkbuf [1] 8 LEFT 0)] =
+  Exc UnboundLocalError.
+Proof. vm_compute. reflexivity. Qed.
+(* unrecognised id after an option: the finally clause completes, UnparserError *)
+Example un2 :
+  bcoap_unparse
+    [(mkfid P_CoAP 18, mkbuf [1] 8 LEFT 0);
+     (mkfid P_Other 0, mkbuf [1] 8 LEFT 0)] =
+  Exc UnparserError.
+Proof. vm_compute. reflexivity. Qed.
+(* decreasing option numbers: (-10).to_bytes *)
+Example un3 :
+  bcoap_unparse
+    [(mkfid P_CoAP 18, mkbuf [1] 8 LEFT 0);
+     (mkfid P_CoAP 12, mkbuf [1] 8 LEFT 0)] =
+  Exc OverflowError.
+Proof. vm_compute. reflexivity. Qed.
+(* delta 70000: (70000-269).to_bytes(2) *)
+Example un4 :
+  bcoap_unparse
+    [(mkfid P_CoAP 71000, mkbuf [1] 8 LEFT 0)] =
+  Exc OverflowError.
+Proof. vm_compute. reflexivity. Qed.
+(* a syntactic option field id first *)
+Example un5 :
+  bcoap_unparse
+    [(mkfid P_CoAP 7, mkbuf [1] 4 LEFT 4)] =
+  Exc UnboundLocalError.
+Proof. vm_compute. reflexivity. Qed.
+(* a 21-bit value (length 21 // 8 = 2), a fixed field between options, an empty value *)
+Example un6 :
+  bcoap_unparse
+    [(mkfid P_CoAP 0, mkbuf [1] 2 LEFT 6);
+     (mkfid P_CoAP 18, mkbuf [1; 2; 3] 21 LEFT 3);
+     (mkfid P_CoAP 6, mkbuf [1] 8 LEFT 0);
+     (mkfid P_CoAP 18, mkbuf [] 0 LEFT 0)] =
+  Ok [(mkfid P_CoAP 0, mkbuf [1] 2 LEFT 6);
+      (mkfid P_CoAP 7, mkbuf [11] 4 LEFT 4);
+      (mkfid P_CoAP 8, mkbuf [2] 4 LEFT 4);
+      (mkfid P_CoAP 11, mkbuf [1; 2; 3] 21 LEFT 3);
+      (mkfid P_CoAP 6, mkbuf [1] 8 LEFT 0);
+      (mkfid P_CoAP 7, mkbuf [0] 4 LEFT 4);
+      (mkfid P_CoAP 8, mkbuf [0] 4 LEFT 4)].
+Proof. vm_compute. reflexivity. Qed.
+(* right-padded values are kept as they are; Unknown(11) names option 11 too *)
+Example un7 :
+  bcoap_unparse
+    [(mkfid P_CoAP 18, mkbuf [240] 8 RIGHT 0);
+     (mkfid P_CoAP 1011, mkbuf [128] 3 RIGHT 5)] =
+  Ok [(mkfid P_CoAP 7, mkbuf [11] 4 LEFT 4);
+      (mkfid P_CoAP 8, mkbuf [1] 4 LEFT 4);
+      (mkfid P_CoAP 11, mkbuf [240] 8 RIGHT 0);
+      (mkfid P_CoAP 7, mkbuf [0] 4 LEFT 4);
+      (mkfid P_CoAP 8, mkbuf [0] 4 LEFT 4)].
+Proof. vm_compute. reflexivity. Qed.
